@@ -81,7 +81,10 @@ def pointwise(check, proj):
             try:
                 call_flux(ctx, f, L, R, ctx.dir2d() if key == "euler2d" else None)
             except AnalysisError as e:
-                if "non point-wise" in str(e) or "reduction" in str(e):
+                v_ = getattr(e, "violation", None)
+                if v_ is not None and (len(v_) < 5 or check.pid in v_[4]):
+                    check.violation(v_[0], v_[1], v_[2], f.loc(), key=v_[3])
+                elif "non point-wise" in str(e) or "reduction" in str(e):
                     check.violation("POINTWISE", f.qualname, "flux function is not element-wise in the face index: %s" % e, f.loc(), key="pointwise")
                 else:
                     check.undecided("POINTWISE", f.qualname, str(e), f.loc())
